@@ -142,6 +142,50 @@ Theorem C10_history_checker_sound :
 Proof. exact Pb_hist_sound. Qed.
 Print Assumptions C10_history_checker_sound.
 
+(** MESSAGE LEVEL.  Votes enter through the message server (prevote / vote / feeder-delegation messages after
+    ValidateBasic) with the validator and feeder written as strings in ANY accepted spelling (lower-case or upper-case
+    bech32) or rejected ones.  For every sequence of blocks of such messages, every per-block staking view and every
+    canonical starting store: each EndBlocker outcome of the current code satisfies P w.r.t. exactly the votes cast — by
+    VALIDATOR IDENTITY (the address the validator field decodes to) — through accepted messages since the last period
+    end; no vote survives a period end. *)
+Theorem C10_msg_history_holds :
+  forall p xs, Forall (fun ex => wf_env (fst ex)) xs -> forall s, canonical_store s ->
+  P_mhist p (ms_rates s) (map to_avote (ms_votes s)) (map to_prevote (ms_prevotes s)) (mhist_obs true true p s xs).
+Proof. exact mhist_holds. Qed.
+Print Assumptions C10_msg_history_holds.
+
+(** The identity map "message string -> validator" is applied before anything is stored: the Voter string in the
+    store is the canonical spelling of the key, hence the tally's lookup by stored string is a lookup by identity. *)
+Theorem C10_stored_voter_is_canonical :
+  forall p wl h ms s s1 acc, deliver_all true p wl h s ms = (s1, acc) -> canonical_store s ->
+  canonical_store s1 /\ votes_seen (ms_votes s1) = map to_avote (ms_votes s1).
+Proof. exact stored_voter_is_canonical. Qed.
+Print Assumptions C10_stored_voter_is_canonical.
+
+(** Which messages are accepted and which rates are published, at every block, do not depend on how the validator /
+    feeder / operator / delegate fields of the messages are spelled. *)
+Theorem C10_rate_independent_of_spelling :
+  forall fx p xs1 xs2, Forall2 mstep_equiv xs1 xs2 ->
+  forall s, mhist_events true fx p s xs1 = mhist_events true fx p s xs2.
+Proof. exact spelling_irrelevant. Qed.
+Print Assumptions C10_rate_independent_of_spelling.
+
+Theorem C10_msg_checker_sound :
+  forall p l rs cast pvs, Pb_mhist p rs cast pvs l = true -> P_mhist p rs cast pvs l.
+Proof. exact Pb_mhist_sound. Qed.
+Print Assumptions C10_msg_checker_sound.
+
+(** A message server that stores the raw [msg.Validator] string instead ([fc = false]) violates the property: five
+    bonded validators of power 10 vote 100, 100, 200, 300, 300; validator 2 writes its address in upper case; all ten
+    messages are accepted, 100 is published (the weighted median is 200), and the lower-case history publishes 200. *)
+Theorem C10_raw_voter_string_refuted :
+  exists p s xs1 xs2,
+    canonical_store s /\ Forall (fun ex => wf_env (fst ex)) xs1 /\ Forall2 mstep_equiv xs1 xs2 /\
+    mhist_events false true p s xs1 <> mhist_events false true p s xs2 /\
+    ~ P_mhist p (ms_rates s) (map to_avote (ms_votes s)) (map to_prevote (ms_prevotes s)) (mhist_obs false true p s xs1).
+Proof. exact raw_voter_string_refuted. Qed.
+Print Assumptions C10_raw_voter_string_refuted.
+
 (** Inside the domain the update never panics. *)
 Theorem C10_no_panic_in_domain :
   forall p st h, wf st -> domain p st h = true -> update true p st h <> Panic.
